@@ -9,18 +9,18 @@ open CType
 
 /-! ### powers of two -/
 
-theorem pow2_eq (n : Nat) : pow2 n = (2 : Int) ^ n := by
-  unfold pow2; rw [Int.natCast_pow]; rfl
+theorem pow2_pos (n : Nat) : (0 : Int) < 2 ^ n := Int.pow_pos (by decide)
 
-theorem pow2_pos (n : Nat) : 0 < pow2 n := by
-  rw [pow2_eq]; exact Int.pow_pos (by decide)
+theorem pow2_mono {m n : Nat} (h : m ≤ n) : (2 : Int) ^ m ≤ 2 ^ n := by
+  obtain ⟨k, rfl⟩ := Nat.exists_eq_add_of_le h
+  rw [Int.pow_add]
+  have h1 := pow2_pos m
+  have h2 := pow2_pos k
+  have : (2:Int) ^ m * 1 ≤ 2 ^ m * 2 ^ k := Int.mul_le_mul_of_nonneg_left (by omega) (by omega)
+  omega
 
-theorem pow2_mono {m n : Nat} (h : m ≤ n) : pow2 m ≤ pow2 n := by
-  unfold pow2
-  exact Int.ofNat_le.mpr (Nat.pow_le_pow_right (by decide) h)
-
-theorem pow2_succ (n : Nat) : pow2 (n + 1) = 2 * pow2 n := by
-  unfold pow2; rw [Nat.pow_succ]; omega
+theorem pow2_succ (n : Nat) : (2 : Int) ^ (n + 1) = 2 * 2 ^ n := by
+  rw [Int.pow_succ]; omega
 
 namespace CType
 
@@ -178,26 +178,26 @@ theorem uacP_cases (a b : CType) :
 theorem uacP_bits_pos (a b : CType) (ha : 0 < a.bits) (hb : 0 < b.bits) : 0 < (uacP a b).bits := by
   rcases uacP_cases a b with ⟨e, _⟩ | ⟨e, _⟩ | ⟨e, _⟩ | ⟨e, _⟩ <;> rw [e] <;> assumption
 
-theorem uacP_maxVal_left (a b : CType) (ha : 0 < a.bits) (_hb : 0 < b.bits) : a.maxVal ≤ (uacP a b).maxVal := by
+theorem uacP_maxVal_left (a b : CType) (ha : 0 < a.bits) (hb : 0 < b.bits) : a.maxVal ≤ (uacP a b).maxVal := by
   rcases uacP_cases a b with ⟨e, h1, h2⟩ | ⟨e, h1, h2⟩ | ⟨e, h1, h2, h3⟩ | ⟨e, h1, h2, h3⟩ <;> rw [e]
   · omega
   · exact maxVal_le a b ha (by rcases h2 with h2 | h2 <;> simp [h2, h1])
   · omega
   · exact maxVal_le a b ha (Or.inr (Or.inr h1))
 
-theorem uacP_maxVal_right (a b : CType) (_ha : 0 < a.bits) (hb : 0 < b.bits) : b.maxVal ≤ (uacP a b).maxVal := by
+theorem uacP_maxVal_right (a b : CType) (ha : 0 < a.bits) (hb : 0 < b.bits) : b.maxVal ≤ (uacP a b).maxVal := by
   rcases uacP_cases a b with ⟨e, h1, h2⟩ | ⟨e, h1, h2⟩ | ⟨e, h1, h2, h3⟩ | ⟨e, h1, h2, h3⟩ <;> rw [e]
   · exact maxVal_le b a hb (by rcases h2 with h2 | h2 <;> simp [h2, h1])
   · omega
   · exact maxVal_le b a hb (Or.inr (Or.inr h1))
   · omega
 
-theorem uacP_minVal_left (a b : CType) (ha : 0 < a.bits) (_hb : 0 < b.bits) (hs : (uacP a b).signed = true) :
+theorem uacP_minVal_left (a b : CType) (ha : 0 < a.bits) (hb : 0 < b.bits) (hs : (uacP a b).signed = true) :
     (uacP a b).minVal ≤ a.minVal := by
   apply minVal_le _ _ ha hs
   rcases uacP_cases a b with ⟨e, h1, h2⟩ | ⟨e, h1, h2⟩ | ⟨e, h1, h2, h3⟩ | ⟨e, h1, h2, h3⟩ <;> rw [e] <;> omega
 
-theorem uacP_minVal_right (a b : CType) (_ha : 0 < a.bits) (hb : 0 < b.bits) (hs : (uacP a b).signed = true) :
+theorem uacP_minVal_right (a b : CType) (ha : 0 < a.bits) (hb : 0 < b.bits) (hs : (uacP a b).signed = true) :
     (uacP a b).minVal ≤ b.minVal := by
   apply minVal_le _ _ hb hs
   rcases uacP_cases a b with ⟨e, h1, h2⟩ | ⟨e, h1, h2⟩ | ⟨e, h1, h2, h3⟩ | ⟨e, h1, h2, h3⟩ <;> rw [e] <;> omega
